@@ -124,6 +124,9 @@ func kaConfigs(quick bool) []kaConfig {
 		{Name: "acceptor-overrides", HB: 8, AccHB: 4, Alphabet: "Faib", Depth: 6 + d, TickDiv: 2},
 		{Name: "reconnect-with-shorter-interval", HB: 20, HB2: 4, Alphabet: "FaiR", Depth: 5 + d, TickDiv: 2},
 		{Name: "reconnect-with-longer-interval", HB: 4, HB2: 12, Alphabet: "FaiR", Depth: 5 + d, TickDiv: 2},
+		// long enough for a dead-peer disconnect, the initiator's reconnect and the keep-alive of the next connection
+		{Name: "silent-acceptor-side-then-reconnect", HB: 4, Alphabet: "Fa", Depth: 12 + d, TickDiv: 2},
+		{Name: "silent-initiator-side-then-reconnect", HB: 4, Alphabet: "Fi", Depth: 12 + d, TickDiv: 2},
 	}
 }
 
